@@ -174,6 +174,23 @@ def c063(ctx):
         tsr = ts_field_reads(f)
         ctx.floor(R, f.skey + " timestamp read", len(tsr), 1)
         held_at(ctx, R, f, [p for p, _ in tsr], "read of the snapshot timestamp")
+        # every component is read at that one timestamp: mem, imm and the tree (and the scan's pruning stage) all receive the
+        # value read from the state, never a constant or another value ("imm is frozen, read it unpruned" is wrong: writers
+        # that already hold the memtable keep inserting after it became imm)
+        consumers = P.call_points(f, r"lsmtk::kvs::memtable::MemTable::load$|lsmtk::tree::VersionRef::load$|sst::pruning_cursor::PruningCursor::new$")
+        ts_fields = {fld for _p, fld in tsr}
+        for c in consumers:
+            t = P.term_at(f, c)
+            idx = 2 if (callee_skey(t) or "").endswith("::load") else 1
+            srcs = [s_ for s_ in P.origins(f, t["args"][idx]) if s_["k"] in ("field", "const", "call", "param")]
+            from_state = [s_ for s_ in srcs if s_["k"] == "field" and re.search(ST, s_["owner"]) and s_["f"] in ts_fields]
+            other = [s_ for s_ in srcs if s_["k"] == "const" or (s_["k"] == "call" and not P.TRANSPARENT.search(s_["callee"]) and
+                                                                  not re.search(r"(Mutex|RwLock).*::(lock|read|write)$", s_["callee"]))]
+            ctx.check(R, f, "same-timestamp", bool(from_state) and not other,
+                      "%s reads at the snapshot timestamp" % P.short(callee_skey(t)),
+                      "%s is not read at the snapshot timestamp (its timestamp comes from %s): entries of batches that are not yet visible -- "
+                      "writers still inserting into a memtable that has just become imm -- are returned" % (
+                          P.short(callee_skey(t)), sorted({s_["k"] + ":" + str(s_.get("v", s_.get("named", s_.get("callee", "")))) for s_ in other}) or "nowhere"), pt=c)
         # one critical section: exactly one acquisition of the state lock
         locks = P.call_points(f, r"Mutex.*::lock$", arg_pred=K.recv_is_field("state"))
         ctx.check(R, f, "single-section", len(locks) == 1, "the snapshot is taken in a single critical section",
